@@ -4,6 +4,13 @@ Engine P: every generator of every constructor alphabet on its own (with its inv
 Engine E: Cayley-graph BFS over words in a reduced generator alphabet and inverses; a history is
 a list of [generator descriptor, exponent]; the case function rebuilds the isometries with the
 real constructors, composes them with `@` / `.inv()` and evaluates the invariants.
+Engine P (composites): every vectorised constructor applied to COMPOSITE inputs of every listed batch
+shape (incl. square grids (2,2), (3,3), (4,4) and shapes with unit axes); every member of the composite
+isometry - and of its inverse / elementwise products - satisfies the invariants of a single isometry.
+Engine P (hostile caller): the program first overwrites, in place, every helper array the library
+hands out (forms, origin / identity / base-tangent data, coordinates, generator matrices of a
+representation, matrices of isometries built earlier, returned inverses / images), then builds the
+generators of the reduced alphabet again: the constructors must be unaffected.
 The oracle is the definition: M J M^T = J for the row-convention matrix M, oracle distances of the
 lattice (mc/oracle/hyp.py) before = library distances after.
 """
@@ -472,7 +479,7 @@ def full_alphabet(n, seed, quick):
         for p in P[1:3]:
             G.append(["origin_to", (scale * np.asarray(p) / abs(lattice.LAMBDAS[0])).tolist(), True])
             G.append(["timelike_to", (scale * np.asarray(p)).tolist(), False])
-    for R in (5.0, 8.0):
+    for R in (3.0, 5.0):       # cosh 5 = 74: the distance sub-check (tolerance ~ eps |M|^2 / d) is still meaningful
         far = np.concatenate([[math.cosh(R)], math.sinh(R) * u])
         G.append(["origin_to", far.tolist(), True])
         G.append(["origin_to", (1e-3 * far).tolist(), False])
@@ -587,12 +594,257 @@ def mini_alphabet(n, seed):
 
 
 # ------------------------------------------------------------------------------------------
+# composite constructor inputs
+# ------------------------------------------------------------------------------------------
+COMPOSITE_SHAPES = [[1], [2], [3], [2, 2], [3, 3], [2, 3], [3, 2], [2, 1, 2], [1, 1], [4, 4], [2, 2, 2], [1, 3, 3]]
+COMPOSITE_SITE = {"origin_to": "Point.origin_to", "timelike_to": "timelike_to", "tv_origin_to": "TangentVector.origin_to",
+                  "tv_isometry_to": "TangentVector.isometry_to", "spacelike_to": "spacelike_to",
+                  "reflection": "reflection_across", "sl2": "sl2_iso", "coxeter_words": "hyperbolic_rep"}
+
+
+def _cox_group(desc):
+    from geometry_tools.coxeter import CoxeterGroup, TriangleGroup
+    if desc[0] == "tri":
+        return TriangleGroup(tuple(desc[1:4]))
+    return CoxeterGroup(matrix=desc[1])
+
+
+def build_composite(case):
+    """Composite case -> fresh composite library Isometry of batch shape case["shape"]."""
+    from geometry_tools import hyperbolic as H
+    k, n, shape, fo = case["ctor"], case["n"], tuple(case["shape"]), case.get("fo")
+    U = case["units"]
+    if k == "coxeter_words":                  # units = words in the generators; shape = (len(words),)
+        G = _cox_group(case["group"])
+        gens = list(G.ordered_gens)
+        return G.hyperbolic_rep().isometries(["".join(gens[i] for i in w) for w in U])
+    if k == "sl2":                            # units = 2x2 matrices, array of shape (..., 2, 2)
+        arr = np.array(U, dtype=float).reshape(shape + (2, 2))
+        if case["variant"] == "from_sl2":
+            return H.Isometry.from_sl2(arr)
+        if case["variant"] == "list":
+            return H.sl2_iso(arr.tolist())
+        return H.sl2_iso(arr)
+    if k in ("tv_origin_to", "tv_isometry_to"):
+        def tv(i, j):
+            p = np.array([u[i] for u in U], dtype=float).reshape(shape + (n + 1,))
+            w = np.array([u[j] for u in U], dtype=float).reshape(shape + (n + 1,))
+            return H.TangentVector(H.Point(p), w)
+        if k == "tv_origin_to":
+            return tv(0, 1).origin_to(force_oriented=fo)
+        if fo is None:
+            return tv(0, 1).isometry_to(tv(2, 3))
+        return tv(0, 1).isometry_to(tv(2, 3), force_oriented=fo)
+    arr = np.array(U, dtype=float)
+    if k == "origin_to":                      # points: array of shape (..., n+1)
+        return H.Point(arr.reshape(shape + (n + 1,))).origin_to(force_oriented=fo)
+    arr = arr.reshape(shape + (1, n + 1))     # the library's layout for arrays of single vectors / normals
+    if k == "timelike_to":
+        return H.timelike_to(arr, force_oriented=fo)
+    if k == "spacelike_to":
+        return H.spacelike_to(arr, force_oriented=fo)
+    if k == "reflection":
+        return H.Hyperplane(arr).reflection_across()
+    raise ValueError(k)
+
+
+def case_composite(case):
+    from geometry_tools import hyperbolic as H
+    k, n, shape, seed = case["ctor"], case["n"], tuple(case["shape"]), case["seed"]
+    site = COMPOSITE_SITE[k]
+    cls = "composite-rank%d" % len(shape)
+    who = "H^%d %s of a composite of shape %r (%s)" % (n, site, shape, {kk: vv for kk, vv in case.items() if kk in ("fo", "variant", "group")})
+    G = build_composite(case)
+    t = 1
+    M = np.asarray(G.matrix)
+    if M.shape != shape + (n + 1, n + 1) or M.dtype.kind != "f":
+        return {"v": [{"key": "form/%s/%s" % (site, cls), "msg": "%s: matrix array of shape %r dtype %s, expected %r" % (
+            who, M.shape, M.dtype, shape + (n + 1, n + 1))}], "t": t, "o": "shape", "nt": True}
+    v, seen, worst = [], set(), -18
+    for idx in np.ndindex(*shape):
+        vv, tt, o = check_iso(H.Isometry(M[idx].copy()), n, seed, site, cls, "%s, member %r (input %r)" % (who, list(idx), case["units"][int(np.ravel_multi_index(idx, shape))]))
+        t += tt
+        for x in vv:
+            if x["key"] not in seen:
+                seen.add(x["key"])
+                v.append(x)
+        if not vv:
+            worst = max(worst, int(o))
+    if not v:
+        # the composite's own inverse and elementwise products (a composite is composed member by member)
+        J = hyp.J(n)
+        scale = max(1.0, float(np.max(np.linalg.norm(M, 2, axis=(-2, -1))))) ** 2
+        Mi = np.asarray(G.inv().matrix)
+        t += 1
+        if Mi.shape != M.shape or not np.all(np.isfinite(Mi)) or not float(np.max(np.abs(Mi - J @ np.swapaxes(M, -1, -2) @ J))) <= TOL * scale:
+            v.append({"key": "inverse/%s/%s" % (site, cls), "msg": "%s: inv() of the composite is not J M^T J member by member" % who})
+        else:
+            for nm, P in (("G @ G.inv()", G @ G.inv()), ("G @ G", G @ G)):
+                t += 2
+                Mp = np.asarray(P.matrix)
+                ok = Mp.shape == M.shape and bool(np.all(np.isfinite(Mp)))
+                if ok:
+                    e = max(form_error(Mp[idx]) for idx in np.ndindex(*shape))
+                    ok = e <= TOL * scale * scale
+                    if ok and nm == "G @ G.inv()":
+                        ok = float(np.max(np.abs(Mp - np.eye(n + 1)))) <= TOL * scale * scale
+                if not ok:
+                    v.append({"key": "form/composition/%s" % cls, "msg": "%s: the elementwise product %s does not preserve the form / is not the identity" % (who, nm)})
+    return {"v": v, "t": t, "o": "%d/%s/%s/%d" % (n, site, "x".join(map(str, shape)), worst), "nt": True}
+
+
+def _cycle(units, count, offset):
+    return [units[(offset + i) % len(units)] for i in range(count)]
+
+
+def composite_cases(n, seed, quick):
+    P = [p.tolist() for p in proj_points(n, seed, 6)]
+    TP = tangent_pairs(n, seed, 6)
+    TV = [[TP[i][0], TP[i][1], TP[(i + 3) % len(TP)][0], TP[(i + 3) % len(TP)][1]] for i in range(len(TP))]
+    N = [v for v in normals(n, seed, 6) if nullness(v) >= 1e-5]
+    S = sl2_integer_matrices()
+    out = []
+    for si, shape in enumerate(COMPOSITE_SHAPES):
+        cnt = int(np.prod(shape))
+        base = {"n": n, "shape": shape, "seed": seed}
+        for fo in (True, False):
+            out.append(dict(base, ctor="origin_to", units=_cycle(P, cnt, 3 * si), fo=fo))
+            out.append(dict(base, ctor="timelike_to", units=_cycle(P, cnt, 3 * si + 1), fo=fo))
+            out.append(dict(base, ctor="tv_origin_to", units=_cycle(TV, cnt, 3 * si), fo=fo))
+            out.append(dict(base, ctor="spacelike_to", units=_cycle(N, cnt, 2 * si), fo=fo))
+        for fo in (None, True, False):
+            out.append(dict(base, ctor="tv_isometry_to", units=_cycle(TV, cnt, 3 * si + 2), fo=fo))
+        out.append(dict(base, ctor="reflection", units=_cycle(N, cnt, 2 * si + 1)))
+        if n == 2:
+            for vi, variant in enumerate(("sl2_iso", "from_sl2", "list")):
+                out.append(dict(base, ctor="sl2", units=_cycle(S, cnt, 7 * si + 11 * vi), variant=variant))
+    groups = {2: [["tri", 2, 3, 7], ["tri", 3, 3, INF], ["tri", 2, 4, 5]], 3: [["mat", m] for m in rank4_matrices()[:3]]}.get(n, [])
+    for grp in groups:
+        r = len(cox_matrix(grp))
+        for L in (1, 2, 3):
+            words = [list(w) for w in itertools.product(range(r), repeat=L)]
+            out.append({"n": n, "shape": [len(words)], "seed": seed, "ctor": "coxeter_words", "group": grp, "units": words})
+    return out
+
+
+# ------------------------------------------------------------------------------------------
+# hostile caller: arrays handed out by the library are overwritten in place
+# ------------------------------------------------------------------------------------------
+def _scribble(arr, k):
+    """Overwrite a returned ndarray in place with finite garbage; read-only arrays (a library that protects
+    shared state) and non-arrays are left alone.  Returns the number of arrays overwritten."""
+    if not isinstance(arr, np.ndarray) or arr.size == 0 or not arr.flags.writeable:
+        return 0
+    with np.errstate(all="ignore"):
+        if arr.dtype.kind in "fc":
+            arr[...] = np.abs(np.nan_to_num(arr)) * 2.0 + (0.25 + 0.125 * k)
+        elif arr.dtype.kind in "iu":
+            arr[...] = 7 + k
+        else:
+            return 0
+    return 1
+
+
+def hostile_scribble(n, seed, k):
+    """Obtain every helper array of dimension n the public API hands out - from module functions and
+    from FRESH objects that are discarded afterwards - and overwrite it in place."""
+    from geometry_tools import hyperbolic as H
+    from geometry_tools import utils
+    c = 0
+    for d in sorted({2, 3, n, n + 1, n + 2}):
+        c += _scribble(H.minkowski(d), k)
+        c += _scribble(H.minkowski(d, None), k)
+        c += _scribble(H.minkowski(d, base_ring=None), k)
+        c += _scribble(H.minkowski(dimension=d), k)
+        c += _scribble(utils.indefinite_form(d - 1, 1), k)
+        c += _scribble(utils.identity(d), k)
+    P = proj_points(n, seed)
+    N = [v for v in normals(n, seed) if nullness(v) >= 1e-5]
+    TP = tangent_pairs(n, seed)
+    fresh = lambda: [H.Point.get_origin(n), H.Point.get_origin(n, shape=(2,)), H.Point(np.array(P[3], dtype=float)),
+                     H.identity(n), H.Isometry.standard_rotation(0.7, dimension=n), H.Isometry.standard_loxodromic(n, 1.5),
+                     H.TangentVector.get_base_tangent(n), H.TangentVector(H.Point(np.array(TP[1][0])), np.array(TP[1][1])),
+                     H.Hyperplane(np.array(N[1], dtype=float)), H.IdealPoint(np.array([1.0, 1.0] + [0.0] * (n - 1)))]
+    for obj in fresh():                       # the form an object reports
+        c += _scribble(obj.minkowski, k)
+    for obj in fresh():                       # the data of throw-away objects
+        c += _scribble(obj.proj_data, k)
+        c += _scribble(getattr(obj, "aux_data", None), k)
+    o = H.Point.get_origin(n)
+    for model in ("klein", "poincare", "halfspace", "hyperboloid", "projective"):
+        c += _scribble(H.Point.get_origin(n).coords(model), k)
+        c += _scribble(H.Point(np.array(P[4], dtype=float)).coords(model), k)
+    c += _scribble(o.hyperboloid_coords(), k)
+    c += _scribble(o.origin_to().matrix, k)
+    c += _scribble(H.identity(n).matrix, k)
+    c += _scribble(H.identity(n).inv().proj_data, k)
+    bt = H.TangentVector.get_base_tangent(n)
+    for a in (bt.point, bt.vector, bt.normalized().proj_data, bt.origin_to().proj_data):
+        c += _scribble(a, k)
+    hp = H.Hyperplane(np.array(N[2], dtype=float))
+    for a in (hp.spacelike_vector, hp.ideal_basis, hp.ideal_basis_coords(), hp.spacelike_complement().proj_data,
+              hp.reflection_across().proj_data):
+        c += _scribble(a, k)
+    p, q = H.Point(np.array(P[3], dtype=float)), H.Point(np.array(P[5], dtype=float))
+    c += _scribble(p.unit_tangent_towards(q).proj_data, k)
+    c += _scribble(H.kleinian_coords(np.array(P[3], dtype=float)), k)
+    c += _scribble(H.hyperboloid_coords(np.array(P[3], dtype=float)), k)
+    if n in (2, 3):                           # generator matrices returned by a (throw-away) representation
+        grp = ["tri", 2, 3, 7] if n == 2 else ["mat", rank4_matrices()[0]]
+        G = _cox_group(grp)
+        rep = G.hyperbolic_rep()
+        for s in G.ordered_gens:
+            c += _scribble(rep[s].proj_data, k)
+            c += _scribble(rep[s].matrix, k)
+        c += _scribble(rep.isometries(list(G.ordered_gens)).proj_data, k)
+    return c
+
+
+def case_hostile(case):
+    from geometry_tools import hyperbolic as H
+    desc, partner, seed = case["gen"], case["partner"], case["seed"]
+    n = gen_dim(desc)
+    site = SITE[desc[0]]
+    cls = "after-caller-overwrote-returned-arrays"
+    who = "H^%d %s built after the caller overwrote (in place) every helper array the library had returned" % (n, describe(desc))
+    c = hostile_scribble(n, seed, 0)
+    g0 = build_gen(desc)                      # an earlier isometry of the same kind; the caller reuses its arrays as scratch space
+    c += _scribble(g0.inv().proj_data, 1)
+    c += _scribble(g0.matrix, 1)
+    c += _scribble(g0.proj_data, 1)
+    del g0
+    c += hostile_scribble(n, seed, 1)
+    g1 = build_gen(desc)
+    c += _scribble(g1.inv().proj_data, 2)     # returned inverses / images are new objects: theirs to overwrite
+    c += _scribble((g1 @ H.Point(np.array(proj_points(n, seed)[2], dtype=float))).proj_data, 2)
+    v, t, o = check_iso(g1, n, seed, site, cls, who)
+    if not v:
+        p = build_gen(partner)
+        c += hostile_scribble(n, seed, 2)
+        W = g1 @ p.inv()
+        c += _scribble(W.inv().proj_data, 3)
+        c += _scribble(p.inv().proj_data, 3)
+        c += hostile_scribble(n, seed, 3)
+        v2, t2, _ = check_iso(W, n, seed, "composition", cls, who + " @ inverse of %s" % describe(partner))
+        v += v2
+        t += t2 + 3
+    return {"v": v, "t": t + c, "o": "%d/%s/%s" % (n, site, o), "nt": c > 0}
+
+
+def hostile_cases(n, seed):
+    A = [g for g in reduced_alphabet(n, seed) if gen_class(g) != "null-kernel-vector"]
+    return [{"gen": g, "partner": A[(i + 5) % len(A)], "seed": seed} for i, g in enumerate(A)]
+
+
+# ------------------------------------------------------------------------------------------
 def run(ctx):
     q = ctx.quick
     seed = ctx.seed
     dims = [2, 3, 4] if q else [2, 3, 4, 5]
     depth = 2 if q else 3
     ctx.rule = ("generators: every constructor named in the property over its whole alphabet (engine P, with inverse); "
+                "composite-constructors: every vectorised constructor x every batch shape, all members checked; "
+                "hostile-caller: every generator of the reduced alphabet rebuilt after the caller overwrote all returned helper arrays; "
                 "words: all products of <= %d generators/inverses of the reduced alphabet (thorough: depth 3 in H^2,H^3; depth 2 in H^4,H^5 plus depth 3 over one generator per constructor), explored breadth-first and "
                 "merged on the matrix rounded to 6 decimals (engine E). Isometry matrices are row-convention: the "
                 "invariants are M J M^T = J = M^T J M, inv() = J M^T J, distances of all ordered pairs of distinct "
@@ -616,6 +868,31 @@ def run(ctx):
     ctx.product("generators", "checks.c02:case_generator", cases, chunk=16,
                 domains={"dimensions": dims, "constructors": sorted(set(SITE.values())),
                          "generators per dimension": {n: len(full_alphabet(n, seed, q)) for n in dims}})
+    ctx.assume("composite constructor inputs: arrays of points have shape S+(n+1,); arrays of vectors for timelike_to / spacelike_to / "
+               "Hyperplane use the library's S+(1,n+1) layout; arrays of 2x2 matrices S+(2,2); batch shapes S in %s" % COMPOSITE_SHAPES)
+    ctx.assume("hostile caller: only arrays RETURNED by the library (forms, coordinates, data of fresh throw-away objects, returned "
+               "inverses / images / generator matrices) are overwritten in place, never the data of an object that is used afterwards, "
+               "and never the caller's own input arrays after they were handed over; read-only arrays are left alone")
+    ccases = []
+    for n in dims:
+        ccases += composite_cases(n, seed, q)
+    ctx.product("composite-constructors", "checks.c02:case_composite", ccases, chunk=4,
+                domains={"dimensions": dims, "batch shapes": COMPOSITE_SHAPES, "constructors": sorted(set(COMPOSITE_SITE.values())),
+                         "force_oriented": [True, False, "default (isometry_to)"],
+                         "Coxeter word arrays": "all words of length 1, 2, 3 in the generators of 3 groups (n = 2, 3)",
+                         "checked": "every member: form, inverse, distances, classes; composite inv(), G @ G.inv(), G @ G member by member"})
+    hcases = []
+    for n in dims:
+        hcases += hostile_cases(n, seed)
+    ctx.product("hostile-caller", "checks.c02:case_hostile", hcases, chunk=2,
+                domains={"dimensions": dims, "generators": "reduced alphabet (each with one partner for a composition)",
+                         "overwritten before / between the constructor calls": [
+                             "hyperbolic.minkowski(d) (positional / keyword call forms), utils.indefinite_form, utils.identity",
+                             "obj.minkowski of fresh Point / IdealPoint / Isometry / TangentVector / Hyperplane",
+                             "proj_data / aux_data of fresh get_origin, identity, get_base_tangent, standard isometries, Hyperplane",
+                             "coords() in all five models, kleinian_coords / hyperboloid_coords",
+                             "matrices of an isometry built earlier by the same constructor, returned inverses and images",
+                             "generator matrices returned by a throw-away Coxeter representation (n = 2, 3)"]})
     if q:
         roots = [[["dim", n, seed, 2, "reduced"]] for n in dims]
         bounds = {n: 2 for n in dims}
